@@ -257,7 +257,7 @@ fn check_value(ctx: &mut Ctx, v: Decimal) {
 
 pub fn run(ctx: &mut Ctx) {
     let prop = "C17";
-    ctx.ev.rule = "part 1: generated values (exact half-penny midpoints, ±1 in the 4th decimal around them, zero, negative, ≥ £1,000,000, tiny, 10-decimal): format_gbp's string must have the shape [-]£d,ddd.dd and read back as the value rounded to pence with midpoints away from zero; the JSON money string (the serde serialiser used by --format json and the MCP tools) must read back as the full value or that same rounding; both compared with the Lean formatter. Amounts in other currencies (USD, EUR, JPY, KWD, CHF, BHD, KRW, CLF: ISO exponents 0, 2, 3, 4; half-unit midpoints, ±1 around them, negatives): format_currency_amount reads back as the amount rounded to the currency's minor units with midpoints away from zero, compared with the Lean fmtCurrencyAmount; and the real text report's ASSET EVENTS lines for USD/JPY/KWD midpoint amounts. Quantities: format_decimal_trimmed reads back exactly; dates DD/MM/YYYY; tax years YYYY/YY. part 2: generated ledgers: every figure of the plain-text summary rows equals format_gbp of the report's value; the JSON report's strings equal the same rounding; both list the same years, disposals and legs; PDF: the text runs of the compiled Typst document (hook verif_text_runs): every £ figure, in template order (summary, disposal headers, Section 104 unit costs, unit prices, gross/fees/net, cost, result, holdings' average costs, echoed prices, fees and event values), equals the exact value rounded to pence with midpoints away from zero and equals the Lean fmtGbp; years, disposal headers, quantities to six decimals, dates and legs appear in report order. Non-trivial = values exactly on a half-penny, and reports with ≥ 2 years; distinct by value/ledger.".into();
+    ctx.ev.rule = "part 1: generated values (exact half-penny midpoints, ±1 in the 4th decimal around them, zero, negative, ≥ £1,000,000, tiny, 10-decimal): format_gbp's string must have the shape [-]£d,ddd.dd and read back as the value rounded to pence with midpoints away from zero; the JSON money string (the serde serialiser used by --format json and the MCP tools) must read back as the full value or that same rounding; both compared with the Lean formatter. Amounts in other currencies (USD, EUR, JPY, KWD, CHF, BHD, KRW, CLF: ISO exponents 0, 2, 3, 4; half-unit midpoints, ±1 around them, negatives): format_currency_amount reads back as the amount rounded to the currency's minor units with midpoints away from zero, compared with the Lean fmtCurrencyAmount; and the real text report's ASSET EVENTS lines for USD/JPY/KWD midpoint amounts. Quantities: format_decimal_trimmed reads back exactly; dates DD/MM/YYYY; tax years YYYY/YY. part 2: generated ledgers: every figure of the plain-text summary rows equals format_gbp of the report's value; the JSON report's strings equal the same rounding and every quantity in it (disposals, legs, holdings) is exact; both list the same years, disposals and legs; PDF: the text runs of the compiled Typst document (hook verif_text_runs): every £ figure, in template order (summary, disposal headers, Section 104 unit costs, unit prices, gross/fees/net, cost, result, holdings' average costs, echoed prices, fees and event values), equals the exact value rounded to pence with midpoints away from zero and equals the Lean fmtGbp; years, disposal headers, quantities to six decimals, dates and legs appear in report order. Non-trivial = values exactly on a half-penny, and reports with ≥ 2 years; distinct by value/ledger.".into();
     let mut r = Rng::new(ctx.seed ^ 0xC17);
     let n = ctx.n(1500, 80_000);
     for _ in 0..n { let v = gen_value(&mut r); check_value(ctx, v); }
@@ -347,6 +347,34 @@ pub fn run(ctx: &mut Ctx) {
             // same lists
             let jd = jy["disposals"].as_array().map(|a| a.len()).unwrap_or(0);
             if jd != y.disposals.len() || jy["disposal_count"].as_u64() != Some(y.disposals.len() as u64) { ctx.ev.violation("oracle", format!("JSON lists {jd} disposals for {label}, the report has {}", y.disposals.len()), replay_text(prop, "oracle", "lists", &l, &[])); }
+        }
+        // every quantity of the JSON report is exact, every other figure exact or rounded to pence
+        {
+            let dq = |v: &serde_json::Value| v.as_str().and_then(|x| x.parse::<Decimal>().ok());
+            let money_ok = |v: &serde_json::Value, w: Decimal| dq(v).map(|x| { let (xq, wq) = (Q::from_dec(x), Q::from_dec(w)); xq.eq(&wq) || xq.eq(&half_away_pence(&wq)) }).unwrap_or(false);
+            let mut bad: Option<String> = None;
+            for (yi, y) in rep.tax_years.iter().enumerate() {
+                for (di, d) in y.disposals.iter().enumerate() {
+                    let jd = &js["tax_years"][yi]["disposals"][di];
+                    let c = format!("{} {}", d.date, d.ticker);
+                    if dq(&jd["quantity"]) != Some(d.quantity) { bad = Some(format!("{c}: quantity {} shown as {}", d.quantity, jd["quantity"])); }
+                    if !money_ok(&jd["gross_proceeds"], d.gross_proceeds) { bad = Some(format!("{c}: gross proceeds {} shown as {}", d.gross_proceeds, jd["gross_proceeds"])); }
+                    if !money_ok(&jd["proceeds"], d.proceeds) { bad = Some(format!("{c}: proceeds {} shown as {}", d.proceeds, jd["proceeds"])); }
+                    for (mi, m) in d.matches.iter().enumerate() {
+                        let jm = &jd["matches"][mi];
+                        if dq(&jm["quantity"]) != Some(m.quantity) { bad = Some(format!("{c} leg {mi}: quantity {} shown as {}", m.quantity, jm["quantity"])); }
+                        if !money_ok(&jm["allowable_cost"], m.allowable_cost) { bad = Some(format!("{c} leg {mi}: allowable cost {} shown as {}", m.allowable_cost, jm["allowable_cost"])); }
+                        if !money_ok(&jm["gain_or_loss"], m.gain_or_loss) { bad = Some(format!("{c} leg {mi}: gain {} shown as {}", m.gain_or_loss, jm["gain_or_loss"])); }
+                    }
+                }
+            }
+            for (hi, h) in rep.holdings.iter().enumerate() {
+                let jh = &js["holdings"][hi];
+                if dq(&jh["quantity"]) != Some(h.quantity) { bad = Some(format!("holding {}: quantity {} shown as {}", h.ticker, h.quantity, jh["quantity"])); }
+                if !money_ok(&jh["total_cost"], h.total_cost) { bad = Some(format!("holding {}: cost {} shown as {}", h.ticker, h.total_cost, jh["total_cost"])); }
+            }
+            if js["holdings"].as_array().map(|a| a.len()) != Some(rep.holdings.len()) { bad = Some("JSON lists a different number of holdings".into()); }
+            if let Some(what) = bad { ctx.ev.violation("oracle", format!("JSON report: {what}"), replay_text(prop, "oracle: cgt-tool report in.cgt --format json", &what, &l, &[format!("case {name}")])); }
         }
         let sections = text.lines().filter(|ln| ln.starts_with("## ")).count();
         if sections != rep.tax_years.len() { ctx.ev.violation("oracle", format!("text report has {sections} year sections, JSON/report has {}", rep.tax_years.len()), replay_text(prop, "oracle", "lists", &l, &[])); }
